@@ -4,6 +4,7 @@ from __future__ import annotations
 import copy
 import itertools
 import os
+import re
 import shutil
 import tempfile
 from pathlib import Path
@@ -98,6 +99,62 @@ def oracle(case: dict):
                 return ("file-read-order", f"read(order=True) = {ruo!r}, expected {ordered_spec(ru)!r}")
             if not gen.typed_eq(ro, ordered_spec(ru)):
                 return ("file-write-order", f"file written with order=True reads as {ro!r}, expected {ordered_spec(ru)!r}")
+            return None
+        finally:
+            shutil.rmtree(d, ignore_errors=True)
+    if kind == "commented":
+        # a commented source (comments at the top level, in nested dicts and in dicts that are list items): ordering
+        # changes the order of keys and nothing else - the comment / include tables keep their entries, every placeholder
+        # entry keeps its table row, the ordered file still spells every comment and reads back to the same data
+        d = Path(tempfile.mkdtemp(prefix="c15c_", dir=os.environ.get("VERIF_SCRATCH", "/var/tmp")))
+
+        def phs(x, acc):
+            if isinstance(x, dict):
+                for k, v in x.items():
+                    if isinstance(k, str) and re.fullmatch(r"(LINE|BLOCK)COMMENT\d{6}", k):
+                        acc.append(k)
+                    phs(v, acc)
+            elif isinstance(x, list):
+                for v in x:
+                    phs(v, acc)
+            return acc
+
+        def deep_strip(x):
+            if isinstance(x, dict):
+                return {k: deep_strip(v) for k, v in x.items() if not (isinstance(k, str) and re.fullmatch(r"(LINE|BLOCK)COMMENT\d{6}", k))}
+            if isinstance(x, list):
+                return [deep_strip(v) for v in x]
+            return x
+
+        try:
+            f, fo = d / "src", d / "ordered"
+            f.write_text(case["text"])
+            try:
+                s0 = dictIO.DictReader.read(f)
+                texts0 = sorted(list(s0.line_comments.values()) + list(s0.block_comments.values()))
+                s1 = dictIO.DictReader.read(f)
+                s1.order_keys()
+                so = dictIO.DictReader.read(f, order=True)
+                dictIO.DictWriter.write(dictIO.DictReader.read(f), fo, mode="w", order=True)
+                back = dictIO.DictReader.read(fo)
+            except Exception as e:  # noqa: BLE001
+                return ("file-raises", f"ordering a commented file raised {type(e).__name__}: {e}")
+            for name, sx in (("order_keys()", s1), ("read(order=True)", so)):
+                tx = sorted(list(sx.line_comments.values()) + list(sx.block_comments.values()))
+                if tx != texts0:
+                    return ("order-tables", f"{name} on a commented dict: comment tables hold {tx!r}, before ordering {texts0!r}")
+                for k in phs(gen.plain(dict(sx)), []):
+                    tab = sx.line_comments if k.startswith("LINE") else sx.block_comments
+                    if int(k[-6:]) not in tab:
+                        return ("order-tables", f"{name}: the placeholder entry {k} has lost its row in the comment table")
+                if not assoc_eq(deep_strip(gen.plain(dict(sx))), deep_strip(gen.plain(dict(s0)))):
+                    return ("order-assoc", f"{name} on a commented dict changed the association")
+            out = fo.read_text()
+            for c in case["comments"]:
+                if c not in out:
+                    return ("file-assoc", f"the file written with order=True no longer spells the comment {c!r}")
+            if not assoc_eq(deep_strip(gen.plain(dict(back))), deep_strip(gen.plain(dict(s0)))):
+                return ("file-assoc", f"the ordered commented file reads back to {deep_strip(gen.plain(dict(back)))!r}, the source to {deep_strip(gen.plain(dict(s0)))!r}")
             return None
         finally:
             shutil.rmtree(d, ignore_errors=True)
@@ -226,6 +283,19 @@ def run(ctx):
         if r:
             ctx.oracle_fail(c, r[0], r[1])
         ctx.count(("f", ext, wire.enc_tree(t)), not is_sorted_deep(t), "file" + (ext or ".native"))
+    # commented sources: comments at the top level, in nested dicts and in dicts that are list items
+    for i in range(ctx.n(40, 400)):
+        ks = rng.sample(["zeta", "alpha", "mid", "b2", "Beta", "k9"], 4)
+        cm = [f"// note {i} {j}" for j in range(4)] + [f"/* block {i} */"]
+        ik = rng.sample(["n", "m", "k", "a"], 3)
+        text = (f"{cm[0]}\n{ks[0]} {{ {cm[1]}\n  {ik[0]} 2; {ik[1]} 1; }}\n"
+                f"{ks[1]} ( {{ {cm[2]}\n  {ik[2]} 2; {ik[0]} 1; }} {{ {cm[4]} {ik[1]} 1; }} 3 );\n"
+                f"{ks[2]} 7;\n{ks[3]} {{ sub {{ {cm[3]}\n {ik[1]} 1; {ik[0]} 0; }} }}\n")
+        c = {"kind": "commented", "t": {}, "text": text, "comments": cm}
+        r = oracle(c)
+        if r:
+            ctx.oracle_fail(c, r[0], r[1])
+        ctx.count(("c", text), True, "commented", sample={"text": text} if i == 0 else None)
     # histories on one instance: order, nested additions, order again; append with order=True onto an existing file
     for i in range(ctx.n(150, 3000)):
         t = gen.dom_tree(rng, max_nodes=rng.choice([8, 20]), max_depth=3, int_keys=0.0, key=tricky_key, leaf=lambda r: gen.dom_scalar(r))
